@@ -92,7 +92,7 @@ def gen_tree(rng, depth, under_best=False, top=False, evp=False):
         kinds = [k for k in kinds if k != "maxep"]  # locals are never delivered below callback_on_new_best
     k = "list" if top and rng.random() < 0.7 else rng.choice(kinds)
     if k == "rec":
-        return {"t": "rec", "stop": rng.choice([0, 0, 0, 0, rng.randint(1, 14)])}
+        return {"t": "rec", "stop": rng.choice([0, 0, 0, rng.randint(1, 14), rng.randint(1, 8)]), "ret": rng.choice(["bool", "np", "th"])}
     if k == "list":
         n = rng.choice([0, 1, 2, 2, 3, 4])
         return {"t": "list", "ch": [gen_tree(rng, depth - 1, under_best, evp=evp) for _ in range(n)]}
@@ -106,7 +106,7 @@ def gen_tree(rng, depth, under_best=False, top=False, evp=False):
     if k == "ckpt":
         return {"t": "ckpt", "freq": rng.randint(1, 7), "rb": rng.random() < 0.5, "vn": rng.random() < 0.5, "verbose": rng.choice([0, 2])}
     if k == "conv":
-        return {"t": "conv", "stop": rng.choice([0, 0, 0, rng.randint(1, 14)])}
+        return {"t": "conv", "stop": rng.choice([0, 0, 0, rng.randint(1, 14)]), "ret": rng.choice(["bool", "np", "th"])}
     if k == "thresh":
         return {"t": "thresh", "thr": rng.randint(-4, 6), "verbose": rng.choice([0, 1])}
     if k == "noimp":
@@ -134,7 +134,7 @@ def gen_case(rng, i):
     if u < 0.05:
         tree, root_mode = None, "none"
     elif u < 0.15:
-        tree, root_mode = {"t": "conv", "stop": rng.choice([0, 0, rng.randint(1, 14)])}, "function"
+        tree, root_mode = {"t": "conv", "stop": rng.choice([0, 0, rng.randint(1, 14)]), "ret": rng.choice(["bool", "np", "th"])}, "function"
     elif tree["t"] == "list" and tree["ch"] and rng.random() < 0.3:
         root_mode = "list"
     has_eval = any(t["t"] == "eval" for t in preorder(tree))
@@ -230,10 +230,20 @@ def run_impl(case):
     fired_log = {}
     eval_log = {}
 
+    stop_requests = []     # env-step counter at every falsy answer of a recorder / function callback
+
+    def answer(go_on, kind):
+        """the value a user callback returns: a Python bool, a numpy bool (what `np.mean(x) < thr` gives) or a 0-dim torch tensor;
+        its truthiness is the stop bit"""
+        if not go_on:
+            stop_requests.append(int(venv.count))
+        return {"bool": bool(go_on), "np": np.bool_(go_on), "th": th.tensor(bool(go_on))}[kind]
+
     class Recorder(cbm.BaseCallback):
-        def __init__(self, stop_at):
+        def __init__(self, stop_at, ret="bool"):
             super().__init__()
             self.stop_at = stop_at
+            self.ret = ret
             self.log = []
             self.locals_ok = True
 
@@ -259,7 +269,7 @@ def run_impl(case):
                 if not (np.allclose(np.asarray(lo["new_obs"]), o, rtol=0, atol=0) and np.array_equal(np.asarray(lo["dones"]), d)
                         and np.array_equal(np.asarray(lo["rewards"]), r)):
                     self.locals_ok = False
-            return self.n_calls != self.stop_at
+            return answer(self.n_calls != self.stop_at, self.ret)
 
         def _on_rollout_end(self):
             self._entry(3)
@@ -274,7 +284,7 @@ def run_impl(case):
         idx = len(nodes)
         nodes.append([t, None])
         if k == "rec":
-            o = Recorder(t["stop"])
+            o = Recorder(t["stop"], t.get("ret", "bool"))
         elif k == "list":
             o = cbm.CallbackList([build(c) for c in t["ch"]])
         elif k == "everyn":
@@ -327,7 +337,7 @@ def run_impl(case):
                 infos = locals_.get("infos")
                 # a plain function only sees locals / globals: it keeps its own call count; the timestep counter is the model's
                 clog.append([2, len(clog) + 1, int(model.num_timesteps), int(infos[0]["vstep"]) if infos else -1])
-                return len(clog) != nodes[idx][0]["stop"]
+                return answer(len(clog) != nodes[idx][0]["stop"], nodes[idx][0].get("ret", "bool"))
 
             o = cbm.ConvertCallback(fn)
             o._verif_log = clog
@@ -538,7 +548,7 @@ def run_impl(case):
         obs_nodes.append([code, int(o.n_calls), int(o.num_timesteps), ent])
     return {"error": err, "root_trace": root_trace, "envcount": envcount, "nodes": obs_nodes, "calls": call_info,
             "eval_means": {str(i): eval_log[i]["means"] for i in eval_log}, "files": files,
-            "saves": save_log, "eval_files": eval_files, "eval_sync": {str(i): eval_log[i].get("sync", []) for i in eval_log},
+            "saves": save_log, "stop_requests": stop_requests, "eval_files": eval_files, "eval_sync": {str(i): eval_log[i].get("sync", []) for i in eval_log},
             "made_roots": [[type(r).__name__, int(r.n_calls), int(r.num_timesteps)] for r in made_roots], "aux_saves": aux_saves, "eval_n": {str(i): eval_log[i]["n_eval"] for i in eval_log}, "eval_env": {str(i): eval_log[i].get("env", []) for i in eval_log},
             "off_policy": algo not in ("PPO", "A2C"), "locals_ok": [bool(o.locals_ok) for t, o in nodes if t["t"] == "rec"],
             "final": [int(model.num_timesteps), int(venv.count)]}
@@ -786,6 +796,11 @@ def oracle(case, impl):
         for j, e in enumerate(tr):
             if e[0] == 9 and j + 1 < len(tr) and tr[j + 1][0] == 2:
                 ret_at[e[1]] = tr[j + 1][3]
+    for ec in impl.get("stop_requests", []):
+        if ret_at.get(ec, False):
+            probs.append(("oracle-stop-request-ignored", f"a callback answered with a falsy value (False / np.bool_(False) / th.tensor(False)) at env step {ec}, "
+                                                        f"but the root step event returned a truthy value and training went on"))
+            break
     scale = 24 if case["real_eval"] else 1
     for i, t in enumerate(specs):
         if t["t"] != "eval":
